@@ -486,7 +486,8 @@ pub fn rx_float_range(
                         "\\.{}",
                         lexi_range(&ld, &rd, left_inclusive, right_inclusive)?
                     );
-                    if ld.parse::<i64>().unwrap_or(0) == 0 {
+                    // the bare integer part is the lower bound itself: only admissible when that bound is inclusive
+                    if left_inclusive && ld.parse::<i64>().unwrap_or(0) == 0 {
                         Ok(format!("({left_rec}({suff})?)"))
                     } else {
                         Ok(format!("({left_rec}{suff})"))
